@@ -23,7 +23,7 @@ MAGNITUDES = [(0, 255), (256, 65535), (65536, 2 ** 24 - 1), (2 ** 24, 2 ** 31 - 
 
 
 def vt(v):
-    return tuple(int(x) for x in v.split(".")[:2])
+    return tuple(int(x) for x in v.replace("pypy", "").split(".")[:2])
 
 
 class Tables:
